@@ -7,6 +7,7 @@
    byte-level integrity is exercised, not proved. *)
 From Coq Require Import String List.
 From Verif Require Import Lib.Base Lib.PyStr Lib.Crypto Model.Lv Proofs.Lv_proofs Model.TokenFmt Proofs.TokenFmt_proofs.
+From Verif Require Import Model.JwtKeys Proofs.JwtKeys_proofs.
 From Coq Require Import ZArith.
 From Verif Require Gen.Src_token Proofs.Src_refine.
 Import ListNotations.
@@ -72,6 +73,32 @@ Theorem C04_jwt_unforgeable : forall (K : term -> Prop) (k0 : nat),
   forall h expired t sid, derivable K t -> jwt_info k0 h expired t = TOk sid -> exists t0, K t0 /\ sub t t0.
 Proof. exact jwt_unforgeable. Qed.
 Print Assumptions C04_jwt_unforgeable.
+
+(* WHICH KEY VERIFIES (Model/JwtKeys.v, compared with JWTToken.get_payload of the real handlers on genuine and
+   re-signed tokens): the verifier looks keys up under the issuer the token names; with the algorithm and the issuer
+   pinned, an accepted token names this provider and was produced with a key the jar holds for this provider.
+   A client's secret, a key a client registered, a fresh key: all are filed under other owners, hence refused. *)
+Theorem C04_jwt_accepted_is_own : forall j issuer pinned t m,
+  jwt_verify true j issuer pinned t = Some m ->
+  j_iss t = Some issuer /\ jalg_eqb (j_alg t) pinned = true /\
+  exists e, In e j /\ jk_owner e = issuer /\
+            ((exists f n, j_alg t = AlgAsym f n /\ jk_kind e = KAsym f /\ j_body t = Sig (jk_num e) m) \/
+             (exists n, j_alg t = AlgHS n /\ jk_kind e = KSym /\ j_body t = Mac (jk_num e) m)).
+Proof. exact accepted_is_own. Qed.
+Print Assumptions C04_jwt_accepted_is_own.
+Theorem C04_jwt_key_of_another_owner_refused : forall j issuer pinned t k m,
+  (j_body t = Sig k m \/ j_body t = Mac k m) ->
+  (forall e, In e j -> jk_owner e = issuer -> jk_num e <> k) ->
+  jwt_verify true j issuer pinned t = None.
+Proof. exact foreign_key_refused. Qed.
+Print Assumptions C04_jwt_key_of_another_owner_refused.
+(* the code before 785ab74 (no issuer pin): a client that registered a key of the handler's algorithm family *)
+Example C04_jwt_unpinned_refuted :
+  let j := [mkJarkey (PS "https://op") 0 (KAsym 1); mkJarkey (PS "client_1") 7 (KAsym 1)] in
+  let t := mkJtok (AlgAsym 1 0) (Some (PS "client_1")) (Sig 7 (Atom (PS "sid of somebody"))) in
+  jwt_verify false j (PS "https://op") (AlgAsym 1 0) t = Some (Atom (PS "sid of somebody"))
+  /\ jwt_verify true j (PS "https://op") (AlgAsym 1 0) t = None.
+Proof. exact unpinned_refuted. Qed.
 
 (* the framing codec under all of this: every list of every string *)
 Theorem C04_lv_roundtrip : forall l, lv_unpack (lv_pack l) = Ok l.
